@@ -175,9 +175,12 @@ fn run_c11(ctx: &mut Ctx) -> Verdict {
     let st = irr.lock().unwrap();
     if via_cli {
         // the child process has its own (random) hash seeds: the order of its pipelined queries is not part of the event log
-        let mut q: Vec<&String> = st.queries.iter().collect();
-        q.sort();
-        ev!(ctx, "queries of the bgpfu process (sorted) {:?}", q.iter().take(60).collect::<Vec<_>>());
+        // (and, when its evaluation fails, which of them it still sends before it gives up is not either)
+        if got.is_ok() {
+            let mut q: Vec<&String> = st.queries.iter().collect();
+            q.sort();
+            ev!(ctx, "queries of the bgpfu process (sorted) {:?}", q.iter().take(60).collect::<Vec<_>>());
+        }
     } else {
         ev!(ctx, "queries {:?}", st.queries.iter().take(60).collect::<Vec<_>>());
     }
